@@ -1,6 +1,6 @@
 (* Extraction of every executable Model and Spec entry point.  ExtrOcamlBasic only. *)
 From Coq Require Import Extraction ExtrOcamlBasic.
-From SA Require Import Base.Prelude Solr.MM Solr.MM_Spec Kernels.Intersect Kernels.Linear Kernels.Spec Codec.Codec Codec.Codec_Spec Index.Index Index.Fast Index.Truncate Index.Index_Spec Query.Phrase Query.Phrase_Spec Score.BM25 Score.Score Query.Range Query.Range_Spec View.View View.View_Spec View.Purity Solr.Edismax Solr.Edismax_Spec.
+From SA Require Import Base.Prelude Solr.MM Solr.MM_Spec Kernels.Intersect Kernels.Linear Kernels.Spec Codec.Codec Codec.Codec_Spec Index.Index Index.Fast Index.Truncate Index.Index_Spec Query.Phrase Query.Phrase_Spec Score.BM25 Score.Score Query.Range Query.Range_Spec View.View View.View_Spec View.Purity Solr.Edismax Solr.Edismax_Spec Store.Store.
 (* The ONLY extraction directive beyond ExtrOcamlBasic: Coq's List.rev is quadratic (rev l ++ [x]); it is
    realised by OCaml's linear List.rev (same function: List.rev_alt : rev l = rev_append l []). *)
 Extract Inlined Constant rev => "List.rev".
@@ -21,4 +21,5 @@ Extraction "samodel.ml"
   of_index select_chain copy v_termfreqs v_phrase_freqs v_docfreq v_doclengths v_positions v_score_bm25 v_score_args
   view_docs compose_rows rows0
   run init_pool
-  edismax edismax_spec.
+  edismax edismax_spec
+  mm_create mm_load dir_count.
